@@ -11,6 +11,10 @@ Line protocol of the Scm area (one output line per input line):
   drain                                   -> drained bytes=N fds=K
   ss-new BASE SLAB                        -> ss shutting=- slab=.. acks=[..] exited=0
   ss-stop ID | ss-tick CLOSED | ss-connect -> none|ack ID|accepted|refused + state
+  handover …                              -> ok   (scenario line of the hand-over harness)
+  ho-new INFLIGHT IDLE | ho-stop ID | ho-finish K | ho-connect
+                                          -> the soft-stop model replayed on an observed trace:
+                                             none|ack ID|accepted|refused exited=0|1
 -/
 
 def strBytes (s : String) : List Nat := s.toUTF8.toList.map UInt8.toNat
@@ -60,6 +64,7 @@ def showSSOut : SoftStop.Out → String
 structure St where
   sock : Sock := {}
   ss : SoftStop.W := { base := 0, slab := 0 }
+  hoIdle : Nat := 0
 
 /-- every address the harness can send comes from `SocketAddr::to_string` -/
 def parseOkAll : Addr → Bool := fun _ => true
@@ -97,6 +102,32 @@ def stepLine (st : St) (line : String) : St × List String :=
       let (w, o) := SoftStop.step st.ss (.tick k)
       ({ st with ss := w }, [showSSOut o ++ " " ++ showSS w])
     | none => (st, ["bad-op"])
+  -- hand-over / soft-stop traces observed on a real worker (harness/src/bin/handover.rs)
+  | "handover" :: _ => (st, ["ok"])
+  | ["ho-new", inflight, idle] =>
+    -- sessions with a request in flight + sessions that report shutting_down() at once
+    match inflight.toNat?, idle.toNat? with
+    | some n, some k =>
+      let w : SoftStop.W := { base := 0, slab := n + k }
+      ({ st with ss := w, hoIdle := k }, [s!"ho inflight={n} idle={k}"])
+    | _, _ => (st, ["bad-op"])
+  | ["ho-stop", i] =>
+    -- SoftStop read, then the first tick closes the idle sessions
+    match i.toNat? with
+    | some i =>
+      let (w1, _) := SoftStop.step st.ss (.softStop i)
+      let (w2, o) := SoftStop.step w1 (.tick st.hoIdle)
+      ({ st with ss := w2 }, [showSSOut o ++ s!" exited={boolStr w2.exited}"])
+    | none => (st, ["bad-op"])
+  | ["ho-finish", k] =>
+    match k.toNat? with
+    | some k =>
+      let (w, o) := SoftStop.step st.ss (.tick k)
+      ({ st with ss := w }, [showSSOut o ++ s!" exited={boolStr w.exited}"])
+    | none => (st, ["bad-op"])
+  | ["ho-connect"] =>
+    let (w, o) := SoftStop.step st.ss .connect
+    ({ st with ss := w }, [showSSOut o ++ s!" exited={boolStr w.exited}"])
   | ["ss-connect"] =>
     let (w, o) := SoftStop.step st.ss .connect
     ({ st with ss := w }, [showSSOut o ++ " " ++ showSS w])
